@@ -433,6 +433,8 @@ func init() {
 		return nil, callBlocked
 	}
 	intrinsics["runtime.GC"] = func(c *callCtx, a []Value) (Value, callStatus) { return nil, callDone }
+	// monotonic clock reading taken by time's initialiser (process start): a fixed instant
+	intrinsics["time.runtimeNano"] = func(c *callCtx, a []Value) (Value, callStatus) { return BV(64, 1_000_000), callDone }
 	intrinsics["runtime/debug.FreeOSMemory"] = intrinsics["runtime.GC"]
 	intrinsics["runtime.KeepAlive"] = intrinsics["runtime.GC"]
 	intrinsics["runtime.SetFinalizer"] = intrinsics["runtime.GC"]
